@@ -940,6 +940,7 @@ func (cr *crashRun) run(r *rng.R) {
 	c := e.c
 	st := stor.New()
 	st.KeepOps(false)
+	st.ListOrder = r.Intn(3) // Storage.List promises no order; images inherit it
 	var db *leveldb.DB
 	err, hung := crCall(crWdTimeout, func() (err error) { db, err = leveldb.Open(st, e.o); return })
 	if hung || err != nil {
